@@ -346,7 +346,7 @@ def rule_c(ctx: Context, R: Reporter, wrapper: FuncInfo):
                         msg=f"{fi.short}: after `{unparse(c)[:50]}` ({rows} rows) the key `calls` is not updated as calls + {rows} on every path", key=f"key-amount:{fi.short}")
             else:
                 R.check("C13.c", f"{fi.short}: likelihood call is accounted", False, fi, c, msg=f"{fi.short}: `{unparse(c)[:50]}` has no call accounting", key=f"unaccounted:{fi.short}")
-    R.floor("C13.c", "likelihood-wrapper call sites", n_sites, 3)
+    R.floor("C13.c", "likelihood-wrapper call sites", n_sites, 2)
     # (3) the kernel total reaches key `calls` exactly once
     from .c07 import kernel_base
 
